@@ -10,7 +10,7 @@ from __future__ import annotations
 
 import hashlib
 import json
-from typing import Any, Dict, List
+from typing import Any, Dict, List, Optional
 
 import httpx
 
@@ -50,7 +50,7 @@ BODY_CLASSES = [
     "empty_object", "unrelated_keys", "json_array", "json_number", "json_string", "json_true", "json_null",
     "empty_body", "html", "torn", "flipped_byte", "invalid_utf8", "bom_prefixed", "utf16", "data_scalar", "data_list",
     "whitespace_padded", "errors_same_message", "data_empty_object", "data_false", "data_empty_and_empty_errors", "empty_errors_null_data", "errors_null_probe", "errors_string_probe",
-    "errors_drawn", "raw_control_char", "data_with_floats", "odd_but_legal_json",
+    "errors_drawn", "raw_control_char", "data_with_floats", "odd_but_legal_json", "non_json_whitespace_padded",
 ]
 QUICK_STATUSES = [200, 201, 204, 299, 100, 199, 300, 301, 304, 400, 401, 404, 429, 500, 502, 503, 599]
 VIAS = ["execute", "get_item", "list_items", "ping", "create_item", "search_now", "custom_query"]
@@ -140,6 +140,12 @@ def make_body(cls: str, data: Any, knob: int) -> bytes:
         if knob % 3 == 2:
             body = body.replace(b'"extensions": {"n": 1}', b'"extensions": {"n": 1, "n": 2E0, "n": 1E+999}')
         return body
+    if cls == "non_json_whitespace_padded":
+        # a valid GraphQL body with one byte sequence before or after it that Python's str/bytes.strip() removes (or that looks
+        # like white space) but that JSON does not allow there
+        pad = [b"\x0b", b"\x0c", b"\x1c", b"\x1f", b"\xc2\xa0", b"\xe2\x80\xa8", b"\x00", b"\xc2\x85"][knob % 8]
+        doc = [J({"data": data}), J({"errors": [{"message": "boom"}], "data": data})][(knob // 8) % 2]
+        return (pad + doc) if (knob // 16) % 2 else (doc + pad)
     if cls == "data_empty_object":
         return J({"data": {}})
     if cls == "data_false":
@@ -193,7 +199,13 @@ def make_body(cls: str, data: Any, knob: int) -> bytes:
     raise ValueError(cls)
 
 
-def make_server_factory(resp_by_nonce: Dict[str, dict], sent: Dict[str, tuple]):
+J_ = lambda o: json.dumps(o).encode()
+
+
+def make_server_factory(resp_by_nonce: Dict[str, dict], sent: Dict[str, tuple], repeated: Optional[Dict[str, int]] = None):
+    repeated = repeated if repeated is not None else {}
+    seen_before: Dict[str, int] = {}
+
     def factory(next_seq, latency):
         def respond(cap):
             spec = resp_by_nonce.get(cap.nonce) or {"status": 200, "cls": "conformant", "knob": 0, "ctype": 0}
@@ -204,6 +216,16 @@ def make_server_factory(resp_by_nonce: Dict[str, dict], sent: Dict[str, tuple]):
             ct = ["application/json", "application/graphql-response+json; charset=utf-8", "text/html; charset=latin-1", None][spec["ctype"] % 4]
             if ct:
                 headers["content-type"] = ct
+            if spec["status"] in (429, 503, 301, 202, 408, 425):
+                ra = [None, "0", "1", "2", "120", "Wed, 21 Oct 2099 07:28:00 GMT"][(spec["knob"] // 3) % 6]
+                if ra is not None:
+                    headers["retry-after"] = ra
+            seen_before[cap.nonce] = seen_before.get(cap.nonce, 0) + 1
+            if seen_before[cap.nonce] > 1:
+                # the same call asks again (a client that retries on its own): this time the server is fine - the call's outcome
+                # must still be the one of the FIRST response, which is the response this check scripted for it
+                repeated[cap.nonce] = seen_before[cap.nonce]
+                return 200, {"content-type": "application/json"}, J_({"data": data})
             sent[cap.nonce] = (spec["status"], body)
             return spec["status"], headers, body
 
@@ -400,10 +422,14 @@ def run_case(case, ch: Choices) -> RunResult:
             i += 1
             resp_by_nonce["n%d" % i] = s["resp"]
     sent: Dict[str, tuple] = {}
+    repeated: Dict[str, int] = {}
     knobs = sched_knobs(cfg)
-    recs, server, info = hw.run_workload(ch, cfg["variant"], cfg["callers"], [], make_server_factory(resp_by_nonce, sent),
+    recs, server, info = hw.run_workload(ch, cfg["variant"], cfg["callers"], [], make_server_factory(resp_by_nonce, sent, repeated),
                                          cfg["own_transport"], True, knobs)
     judge(cfg, recs, server, info, sent, res, cfg["variant"])
+    for n_, k_ in sorted(repeated.items()):
+        res.violations.append(Violation("request-repeated", "[%s] the call with nonce %s reached the server %d times: every response is "
+                                        "classified, none is swallowed and asked for again" % (cfg["variant"], n_, k_), {}))
     cells = set()
     for r in recs:
         c = getattr(r, "cell", None)
